@@ -165,7 +165,7 @@ func concrete(m string, dataID string, pick int) []byte {
 		case "mid":
 			w = []int{5000, 1000, 29999}[pick%3]
 		case "ge30":
-			w = []int{60000, 90000, 4000000, 30000, 4294967295}[pick%5]
+			w = []int{60000, 90000, 4000000, 4294967295}[pick%4]
 		}
 		if pick%2 == 0 { // EEBUS spelling
 			parts := []string{fmt.Sprintf(`{"phase":"%s"}`, phase)}
